@@ -112,3 +112,25 @@ Theorem C12_checked_decode_prefix_fails : forall c f p q,
   wf_fnb f = true -> enc_fn c f = p ++ q -> q <> [] -> checked_decode c p = None.
 Proof. exact checked_decode_prefix_fails. Qed.
 Print Assumptions C12_checked_decode_prefix_fails.
+
+(* ---- load_behaves made concrete: the model VM (VM/Machine.v, C01) runs the decoded skeleton.
+   [run_fn r globals fuel f] embeds the skeleton into the model VM's program table (pre-order ids; the
+   record-name side table [r] and the module's globals are held fixed) and runs it. *)
+From GV Require Import VM.Machine VM.LoadModel VM.LoadModelProofs.
+
+Theorem C12_load_behaves_model_vm : forall c r globals fuel f rest,
+  wf_fnb f = true ->
+  load_and_run c r globals fuel (enc_fn c f ++ rest) = Some (run_fn r globals fuel f).
+Proof. exact load_behaves_model_vm. Qed.
+Print Assumptions C12_load_behaves_model_vm.
+
+Theorem C12_load_behaves_model_vm_any_encoding : forall c1 c2 r globals fuel f,
+  wf_fnb f = true ->
+  load_and_run c1 r globals fuel (enc_fn c1 f) = load_and_run c2 r globals fuel (enc_fn c2 f).
+Proof. exact load_behaves_model_vm_any_encoding. Qed.
+Print Assumptions C12_load_behaves_model_vm_any_encoding.
+
+Theorem C12_truncated_never_runs : forall c r globals fuel f p q,
+  wf_fnb f = true -> enc_fn c f = p ++ q -> q <> [] -> load_and_run c r globals fuel p = None.
+Proof. exact truncated_never_runs. Qed.
+Print Assumptions C12_truncated_never_runs.
